@@ -354,6 +354,10 @@ def otherSites : List (String × String × OpKind × String) := [
   -- yet: the assert next to it demands that the slot holds `this`) before the future is re-created in place
   ("future_with_cb", "operator<<", OpKind.xchg, "_awaiter"),
   ("promise", "~promise<T>", OpKind.load, "_owner"), ("promise", "claim", OpKind.xchg, "_owner"),
+  -- `promise::operator=(promise&&)`: `_owner = other.claim()` — the operator spelling of a seq_cst store (the translator did not see
+  -- operator spellings of atomic operations until the false-alarm round, DESIGN §15).  The assigned-to promise has just given up its
+  -- future (`set_value(drop)` claimed it) and receives the token the source's `claim()` exchange took out: an owner token, no data
+  ("promise", "operator=", OpKind.store, "_owner"),
   ("async::co_awaiter", "await_ready", OpKind.load, "_awaiter"), ("async::co_awaiter", "await_suspend", OpKind.store, "_awaiter"),
   ("generator::promise_type", "unblock_sync", OpKind.notify, "_block"), ("generator::promise_type", "next_sync", OpKind.store, "_block"),
   -- the learned frame size of `scheduler::start` (a hint that only sizes an `alloca`; every call works on its own copy, nothing is
@@ -723,6 +727,15 @@ theorem c03_mutex_needs_flag_release :
 theorem c03_mutex_needs_flag_acquire :
     ∃ cfg sched, (MutexClock.run { MutexClock.ordersNow with flagWait := Order.relaxed } cfg sched).raced = true :=
   ⟨_, _, MutexClock.mutex_needs_flag_acquire⟩
+
+/-- for the pure CAS hand-over (`ready()` / `unlock` fast path) the two clauses are necessary in full generality: EVERY order table
+whose `ready()` CAS does not acquire or whose `unlock` CAS does not release has a racing run, whatever its other orders are -/
+theorem c03_mutex_cas_handover_orders_necessary (o : MutexClock.MutexOrders)
+    (h : o.ready.isAcq = false ∨ o.unlockOk.isRel = false) :
+    ∃ cfg sched, (MutexClock.run o cfg sched).raced = true := by
+  rcases h with h | h
+  · exact ⟨_, _, MutexClock.mutex_ready_acquire_necessary o h⟩
+  · exact ⟨_, _, MutexClock.mutex_unlock_release_necessary o h⟩
 
 /-- the table of the seeded change (exchange relaxed, failing unlock CAS acquire) fails the obligation -/
 example : ({ MutexClock.ordersNow with build := Order.relaxed, unlockFail := Order.acquire } : MutexClock.MutexOrders).sufficient = false := by
